@@ -28,7 +28,8 @@ pub fn worlds(net: &Net, tier: Tier, idx: u64) -> Vec<World> {
         (SpeedUnit::MilesPerHour, DistanceUnit::Feet, TimeUnit::Milliseconds, DistanceUnit::Kilometers, TimeUnit::Minutes),
         (SpeedUnit::MetersPerSecond, DistanceUnit::Inches, TimeUnit::Hours, DistanceUnit::Meters, TimeUnit::Seconds),
     ];
-    let rates = [Rate::Raw, Rate::Factor(0.5), Rate::Combined(vec![Rate::Factor(2.0), Rate::Factor(0.25)])];
+    // (an offset is a charge per edge: the least-cost route is no longer the shortest one when it has more edges)
+    let rates = [Rate::Raw, Rate::Factor(0.5), Rate::Combined(vec![Rate::Factor(2.0), Rate::Factor(0.25)]), Rate::Combined(vec![Rate::Factor(0.5), Rate::Offset(1.5)])];
     let sur: Vec<Vec<(usize, f64)>> = if m > 0 { vec![vec![], vec![(0, 3.5)], vec![(m - 1, 0.75)]] } else { vec![vec![]] };
     let full = tier == Tier::Thorough;
     // distance worlds
@@ -67,7 +68,7 @@ pub fn worlds(net: &Net, tier: Tier, idx: u64) -> Vec<World> {
                         w.w_dist = *wd;
                         w.w_time = *wt;
                         w.r_dist = r.clone();
-                        w.r_time = rates[(ri + 1) % 3].clone();
+                        w.r_time = rates[(ri + 1) % rates.len()].clone();
                         w.surcharge = s.clone();
                         out.push(w);
                     }
